@@ -2,7 +2,7 @@
 From Coq Require Import List String Bool.
 Import ListNotations.
 From NV Require Import Types.SigDefs Gen.PrimopSig Gen.PrimopDyn Types.SigSound.
-From NV Require Import Types.Syntax Types.Sem Types.Decl Types.LogRel Types.Safety Types.ModelSig Types.ModelSigSound Types.Examples Types.Checker Types.CheckerSound.
+From NV Require Import Types.Syntax Types.Sem Types.Decl Types.LogRel Types.Safety Types.ModelSig Types.ModelSigSound Types.Examples Types.Checker Types.CheckerSound Gen.ModelSigGen Types.SigTie.
 
 (* T0, translator-tied: static primop types (real typechecker) vs observed run-time dispatch (real
    interpreter), for every primop outside the listed internal label/contract/sealing operations
@@ -51,3 +51,9 @@ Proof. exact checker_sound_lemma. Qed.
 Theorem C01_certified_safe : forall a T n,
   check_deriv model_sig a T = true -> safe_outcome (run n (erase a)).
 Proof. intros a T n H. eapply type_safety_model. apply checker_sound_lemma. eassumption. Qed.
+
+(* translator tie of the model's signature table: it is the running typechecker's *)
+Theorem C01_model_sig_matches_generated :
+  (forall o T, In (o, T) gen_model_sig -> model_sig o = Some T) /\
+  (forall o, exists T, In (o, T) gen_model_sig).
+Proof. exact model_sig_matches_generated_lemma. Qed.
